@@ -529,7 +529,7 @@ def reject(rec, cls, w, tmp):
 
     for mode, w0 in _reject_modes(cls, w):
         tag = "" if mode == "ctor" else "/width-set-by-setter"
-        for content in bad_contents(w) if mode == "ctor" else [f"{mod}\n".encode(), f"{mod + 1}\n".encode()]:
+        for ci, content in enumerate(bad_contents(w) if mode == "ctor" else [f"{mod}\n".encode(), f"{mod + 1}\n".encode()]):
             for op in OPS:
                 # warm = 0: a new instance finds the bad content; warm = 1, 2: an instance that already made that many good
                 # calls (a call through each entry point) finds the file changed under it - every read is checked, not only the first
@@ -550,6 +550,22 @@ def reject(rec, cls, w, tmp):
                         v = call(inst, op)
                     except ValueError:
                         rec.outcome("reject/ValueError")
+                        # the refusal leaves the instance usable: once the file holds a valid count again the same instance reads
+                        # it (judged for the first contents of the alphabet: a provider that blocks here would take a second each)
+                        if ci < 3 and not warm:
+                            good = min(3, mod - 1)
+                            path.write_bytes(f"{good}\n".encode())
+                            for op2 in ("get_and_increment", "current"):
+                                rec.case(True, ops=1)
+                                try:
+                                    v2 = call(inst, op2)
+                                except Exception as e:
+                                    rec.violation(f"C19.count/{_clsname(cls)}/unusable-after-a-refused-read/{type(e).__name__}", dict(case, then=op2), repr(e), good)
+                                    break
+                                exp2 = good if op2 == "get_and_increment" else (good + 1) % mod
+                                if v2 != exp2:
+                                    rec.violation(f"C19.count/{_clsname(cls)}/wrong-count-after-a-refused-read", dict(case, then=op2), v2, exp2)
+                                    break
                         continue
                     except Exception as e:
                         rec.violation(f"C19.reject/{_clsname(cls)}/wrong-exception/{type(e).__name__}", case, repr(e), "ValueError")
